@@ -353,6 +353,30 @@ fn gen_x(rng: &mut Rng) -> (Dec, u64) {
             let coeff = crate::refdec::pow10(sc) + (BigUint::from(m) << (32 * j as usize));
             (Dec::new(rng.chance(1, 2), &coeff.to_str_radix(10), sc as i64), 0)
         }
+        // unusual but valid representations: a short value padded with many trailing zeros and a matching
+        // scale (what with_scale / arithmetic produce), e.g. 21.000...0 with 20..300 zeros
+        7 if rng.chance(1, 2) => {
+            let head = match rng.below(4) {
+                0 => (1 + rng.below(99)).to_string(),
+                1 => rng.pick(&["1", "11", "21", "101", "5", "25", "125", "2", "8", "3"]).to_string(),
+                _ => {
+                    let n = 1 + rng.below(30) as usize;
+                    let mut h = String::new();
+                    h.push((b'1' + rng.below(9) as u8) as char);
+                    for _ in 1..n {
+                        h.push((b'0' + rng.below(10) as u8) as char);
+                    }
+                    h
+                }
+            };
+            let zeros = match rng.below(4) {
+                0 => 18 + rng.below(6),
+                1 => 250 + rng.below(12),
+                _ => 1 + rng.below(320),
+            };
+            let scale = zeros as i64 + rng.range(-3, 3) * (rng.below(3) as i64 / 2);
+            (Dec::new(rng.chance(1, 2), &format!("{}{}", head, "0".repeat(zeros as usize)), scale), 0)
+        }
         // small integers and simple fractions
         7 => {
             let hi = if rng.chance(1, 2) { 100 } else { 100_000 };
@@ -457,6 +481,39 @@ impl Property for C12 {
             let ints: [&str; 16] = ["1", "-1", "2", "-2", "10", "-10", "100", "-100", "5", "-5", "4", "-8", "25", "3", "-7", "1000"];
             let x = Dec { int: rng.pick(&ints).to_string(), scale: rng.range(-6, 6) };
             return Trace { x, prec: DEFAULT_PREC, mode: Mode::HalfEven, via, env: EnvSel::All };
+        }
+        if via == Via::Ctx && rng.chance(1, 12) {
+            // reciprocals at a rounding boundary: 1/x within ~10^-(p+15) of a half-way point of the p-digit result
+            // or of the (p+2)-digit working value (M ends in 5 one digit below that precision)
+            let hi = if rng.chance(1, 2) { 12 } else { 60 };
+            let prec = 1 + rng.below(hi);
+            let q = if rng.chance(1, 2) { prec + 1 } else { prec + 3 };
+            let mut m = String::new();
+            m.push((b'1' + rng.below(9) as u8) as char);
+            for _ in 1..(q - 1) {
+                m.push((b'0' + rng.below(10) as u8) as char);
+            }
+            m.push('5');
+            let mb = crate::refdec::biguint_from_digits(m.as_bytes());
+            let n = q + 3 * prec + 40;
+            let xi = if q == prec + 3 && rng.chance(2, 3) {
+                // the point where the two (p+2)-digit neighbours G, G+1 of 1/x are mapped onto the rounding boundary
+                // by one exact Newton step: T' = T + u^2/(4T), T = M/10^q the half-way point, u = 10^-(p+2).
+                // (r -> r(2 - x r) = 1/x - x (r - 1/x)^2: both neighbours sit u/2 away, so both images are u^2/(4T)
+                // below 1/x; if that lands exactly on the boundary, any noise decides each image separately.)
+                // 1/T' = 4 M 10^(q+p+1) / (4 M^2 10^(p+1) + 10^q)
+                let num = BigUint::from(4u8) * &mb * crate::refdec::pow10(q + prec + 1) * crate::refdec::pow10(n);
+                let den = BigUint::from(4u8) * &mb * &mb * crate::refdec::pow10(prec + 1) + crate::refdec::pow10(q);
+                num / den
+            } else {
+                crate::refdec::pow10(n) * crate::refdec::pow10(q) / &mb
+            };
+            // a small neighbourhood, on the scale of the last digits
+            let delta = rng.below(7);
+            let xi = xi + BigUint::from(delta);
+            let x = Dec::new(rng.chance(1, 2), &xi.to_str_radix(10), rng.range(-40, 40));
+            let mode = *rng.pick(&MODES);
+            return Trace { x, prec, mode, via: Via::Ctx, env: EnvSel::All };
         }
         let (x, hint) = gen_x(rng);
         let prec = if via == Via::Ctx { gen_prec(rng, hint) } else { DEFAULT_PREC };
